@@ -1058,6 +1058,67 @@ Proof.
   rewrite Z. reflexivity.
 Qed.
 
+
+(* the default ConeBeamGeometry (flat detector) *)
+Definition cone_default (rs rd pitch off : R) : @cone R :=
+  {| c_rs := rs; c_rd := rd; c_s2d := (0, 1, 0); c_axis := (0, 0, 1); c_tr := (0, 0, 0);
+     c_pitch := pitch; c_off := off; c_det := Flat2 (1, 0, 0) (0, 0, 1);
+     c_s2d_arg := None; c_axes_arg := None |}.
+
+Lemma neg3_mv3 (m : M3) (v : V3) : neg3 (mv3 m v) = mv3 m (neg3 v).
+Proof. destruct m as [[[[a b] c] [[d e] f]] [[g h] i]]; d3 v. unf. pair_eq; ring. Qed.
+Lemma sdiv3_mv3 (m : M3) (v : V3) (k : R) : sdiv3 (mv3 m v) k = mv3 m (sdiv3 v k).
+Proof. destruct m as [[[[a b] c] [[d e] f]] [[g h] i]]; d3 v. unf. pair_eq; unfold Rdiv; ring. Qed.
+Lemma norm3_rot (m : M3) (v : V3) : is_rot3 m -> norm3 sqrt (mv3 m v) = norm3 sqrt v.
+Proof. intros Hm. unfold norm3. rewrite (rot3_isometry m v v (proj1 Hm)). reflexivity. Qed.
+
+(* ConeBeamGeometry.frommatrix (flat detector) with a rotation matrix m and translation t: source and
+   detector points are t + m (default geometry's), for all radii, pitch, offset, shifts, angles *)
+Lemma cone_frommatrix_spec (rs rd pitch off : R) (m : M3) (tr : V3) (g : cone)
+    (a : R * R) (ang twopi : R) (ssh dsh : V3) (p : dpar3) :
+  is_rot3 m -> cone_frommatrix sqrt rs rd CFlat pitch off m tr = Some g ->
+  cone_src sqrt g a ang twopi ssh = add3 tr (mv3 m (cone_src sqrt (cone_default rs rd pitch off) a ang twopi ssh)) /\
+  cone_detpoint sqrt g a ang twopi dsh p =
+    add3 tr (mv3 m (cone_detpoint sqrt (cone_default rs rd pitch off) a ang twopi dsh p)) /\
+  c_axis g = mv3 m (0, 0, 1).
+Proof.
+  intros Hm Hg. unfold cone_frommatrix, mk_cone, obind in Hg.
+  destruct (tsys3 sqrt _ _) as [m0|]; [|discriminate Hg].
+  assert (U1 : dot3 (mv3 m (0, 0, 1)) (mv3 m (0, 0, 1)) = 1) by (apply rot3_unit; [exact Hm | unf; ring]).
+  assert (U2 : dot3 (mv3 m (1, 0, 0)) (mv3 m (1, 0, 0)) = 1) by (apply rot3_unit; [exact Hm | unf; ring]).
+  assert (U3 : dot3 (mv3 m (0, 1, 0)) (mv3 m (0, 1, 0)) = 1) by (apply rot3_unit; [exact Hm | unf; ring]).
+  unfold unit_axis, mk_flat2 in Hg. numR.
+  destruct (Reqb_spec (norm3 sqrt (mv3 m (0, 1, 0))) 0) as [Hn0|Hn0].
+  { apply norm3_zero_iff in Hn0. rewrite Hn0 in U3. unf. lra. }
+  destruct (Reqb_spec (norm3 sqrt (mv3 m (0, 0, 1))) 0) as [Hn|Hn].
+  { apply norm3_zero_iff in Hn. rewrite Hn in U1. unf. lra. }
+  destruct (Reqb_spec (norm3 sqrt (cross3 (mv3 m (1, 0, 0)) (mv3 m (0, 0, 1)))) 0) as [Hn2|Hn2]; [discriminate Hg|].
+  rewrite !(sqrt_1_div3 _ U1), !(sqrt_1_div3 _ U2), !(sqrt_1_div3 _ U3) in Hg.
+  destruct (Rltb rs 0); [discriminate Hg|]. destruct (Rltb rd 0); [discriminate Hg|].
+  destruct (Reqb rs 0 && Reqb rd 0); [discriminate Hg|]. injection Hg as <-.
+  split; [|split; [|reflexivity]].
+  - unfold cone_src, cone_rot, cone_along, cone_default.
+    cbn [c_rs c_rd c_s2d c_axis c_tr c_pitch c_off c_det]. destruct ssh as [[s0 s1] s2].
+    rewrite neg3_mv3, <- (rot3_cross m _ _ Hm), neg3_mv3, sdiv3_mv3, (norm3_rot m _ Hm).
+    set (tg := sdiv3 _ _). numR. set (k := off + pitch * ang / twopi + s2).
+    rewrite !(mv3_add m), <- (axis_rot_conj m _ a _ Hm), !(mv3_add m), !(mv3_scal m).
+    assert (Hz : mv3 m (0, 0, 0) = (0, 0, 0)) by (destruct m as [[[[a1 a2] a3] [[a4 a5] a6]] [[a7 a8] a9]]; unf; pair_eq; ring).
+    rewrite Hz.
+    set (R1 := axis_rot (mv3 m (0, 0, 1)) a).
+    destruct (mv3 R1 _) as [[x0 x1] x2]. destruct (mv3 m (0, 0, 1)) as [[z0 z1] z2]. d3 tr. unf. pair_eq; ring.
+  - unfold cone_detpoint, cone_refpoint, cone_rot, cone_along, cone_default.
+    cbn [c_rs c_rd c_s2d c_axis c_tr c_pitch c_off c_det]. destruct dsh as [[s0 s1] s2].
+    destruct p as [[[u v] [cu su]] [cv sv]]. cbn [surf3].
+    rewrite <- (rot3_cross m _ _ Hm), neg3_mv3, sdiv3_mv3, (norm3_rot m _ Hm).
+    set (tg := sdiv3 _ _). numR. set (k := off + pitch * ang / twopi + s2).
+    rewrite !(mv3_add m), <- !(axis_rot_conj m _ a _ Hm), !(mv3_add m), !(mv3_scal m).
+    assert (Hz : mv3 m (0, 0, 0) = (0, 0, 0)) by (destruct m as [[[[a1 a2] a3] [[a4 a5] a6]] [[a7 a8] a9]]; unf; pair_eq; ring).
+    rewrite Hz.
+    set (R1 := axis_rot (mv3 m (0, 0, 1)) a).
+    set (X := mv3 R1 (add3 _ _)). set (Y := mv3 R1 (add3 _ _)).
+    destruct X as [[x0 x1] x2], Y as [[y0 y1] y2]. destruct (mv3 m (0, 0, 1)) as [[z0 z1] z2]. d3 tr. unf. pair_eq; ring.
+Qed.
+
 (* ---- statements assembled for Props.v ---- *)
 Lemma axis_rotation_is_rotation_l : forall (ax : R * R * R) (a : R * R),
   dot3 ax ax = 1 -> on_circle a ->
